@@ -1,7 +1,7 @@
 (* C09 witnesses: refutations of the full statements on the faithful model (by vm_compute)
    and non-vacuity of the hypotheses used in Props.v. *)
 From Coq Require Import List String Ascii Bool Arith PeanoNat Lia.
-From PAFC09 Require Import Model Lib Proofs1 Proofs2 Proofs3 Proofs4 Proofs5.
+From PAFC09 Require Import Model Lib Proofs1 Proofs2 Proofs3 Proofs4 Proofs5 Proofs6.
 Import ListNotations.
 Open Scope string_scope.
 Open Scope list_scope.
@@ -141,7 +141,7 @@ Lemma csv_refuted_mixed_depth : ~ csv_claim false no_reserved.
 Proof.
   intro H.
   specialize (H nat nat nid nid Nat.add (fun v => eq_refl) (sorted_walk t_mixed) (tuple_paths [] t_mixed) rows2
-                (wf_shape_ok t_mixed wf_mixed) inj_mixed mixed_no_reserved rows2_ok_mixed).
+                (wf_shape_ok t_mixed wf_mixed) (fun _ => inj_mixed) mixed_no_reserved rows2_ok_mixed).
   rewrite mixed_reload_fails in H. discriminate.
 Qed.
 
@@ -150,7 +150,7 @@ Lemma csv_refuted_tuple_model : ~ csv_claim false no_reserved.
 Proof.
   intro H.
   specialize (H nat nat nid nid Nat.add (fun v => eq_refl) (sorted_walk t_tuple_model) (tuple_paths [] t_tuple_model) rows3
-                (wf_shape_ok t_tuple_model wf_tuple_model) inj_tuple_model tuple_model_no_reserved rows3_ok_tuple_model).
+                (wf_shape_ok t_tuple_model wf_tuple_model) (fun _ => inj_tuple_model) tuple_model_no_reserved rows3_ok_tuple_model).
   rewrite tuple_model_reload_fails in H. discriminate.
 Qed.
 
@@ -159,7 +159,7 @@ Lemma csv_refuted_reserved (fx : bool) : ~ csv_claim fx uniform_depth.
 Proof.
   intro H.
   specialize (H nat nat nid nid Nat.add (fun v => eq_refl) (sorted_walk t_reserved) [] rows2
-                (wf_shape_ok t_reserved wf_reserved) inj_reserved reserved_is_flat rows2_ok_reserved).
+                (wf_shape_ok t_reserved wf_reserved) (fun _ => inj_reserved) reserved_is_flat rows2_ok_reserved).
   rewrite reserved_reload_fails in H. discriminate.
 Qed.
 
@@ -168,7 +168,7 @@ Lemma summary_refuted_mixed_depth : ~ summary_claim false false (fun _ => True).
 Proof.
   intro H.
   specialize (H nat nat nid nid nzero (fun v => eq_refl) (sorted_walk t_mixed) (tuple_paths [] t_mixed) ([7; 8], 1, 2, 3)
-                (wf_shape_ok t_mixed wf_mixed) inj_mixed I eq_refl).
+                (wf_shape_ok t_mixed wf_mixed) (fun _ => inj_mixed) I eq_refl).
   assert (HZ : no_zero nzero false ([7; 8], 1, 2, 3)) by (intro N; discriminate).
   destruct (H HZ) as [H1 _]. vm_compute in H1. discriminate.
 Qed.
@@ -213,4 +213,33 @@ Proof. vm_compute. reflexivity. Qed.
 
 Example db_roundtrip_mixed :
   db_roundtrip false (from_lists false (sorted_walk t_mixed) rows2) = Ok (from_lists false (sorted_walk t_mixed) rows2).
+Proof. vm_compute. reflexivity. Qed.
+
+(* ------------------------------------------------------------------ non-vacuity: re-created model, tree statements *)
+(* t_nested with the creation ranks a model.json round trip gives (attribute order) *)
+Definition t_nested_recreated : node :=
+  NGroup [("g", NGroup [("a", NPrior 0); ("b", NPrior 1)]); ("h", NGroup [("a", NPrior 1); ("c", NPrior 2)])].
+
+Example recreated_same_sharing : same_sharing (sorted_walk t_nested) (sorted_walk t_nested_recreated).
+Proof.
+  intros p q. vm_compute. split; intros [k [H1 H2]];
+    repeat (destruct H1 as [H1|H1]; [inversion H1; subst; clear H1|]); try contradiction;
+    repeat (destruct H2 as [H2|H2]; [inversion H2; subst; clear H2|]); try contradiction;
+    try discriminate;
+    first [exists 0; split; simpl; tauto | exists 1; split; simpl; tauto | exists 2; split; simpl; tauto].
+Qed.
+
+Example recreated_value_per_path :
+  lookup_group (combine (map KTup (unique_paths (sorted_walk t_nested))) [7; 8; 9])
+               (map KTup (group 0 (sorted_walk t_nested_recreated))) = Ok 9.
+Proof. vm_compute. reflexivity. Qed.
+
+Example mixed_tree_roundtrip_now :
+  res_bind (csv_roundtrip nid nid Nat.add true (tuple_paths [] t_tuple_model) (sorted_walk t_tuple_model)
+              (from_lists true (sorted_walk t_tuple_model) rows3))
+           (observe (tuple_paths [] t_tuple_model) (sorted_walk t_tuple_model)) = Ok (expected rows3).
+Proof. vm_compute. reflexivity. Qed.
+
+Example flat_scraped_keys_are_strings :
+  map (fun s => map fst (s_kw s)) (map (reloaded (sorted_walk t_flat) true) rows2) = [[KStr "b"; KStr "a"]; [KStr "b"; KStr "a"]].
 Proof. vm_compute. reflexivity. Qed.
